@@ -1,34 +1,26 @@
-import sys
-from harness.tlc import run_tlc
-ver=int(sys.argv[1]) if len(sys.argv)>1 else 3
-calls=sys.argv[2] if len(sys.argv)>2 else "2"
-cfg=f"""SPECIFICATION Spec
-CONSTANTS
-Retries = 2
-Ver = {ver}
-CtrMod = 3
-MaxCalls = {calls}
-MaxConn = 3
-MaxFly = 2
-MaxKeys = 3
-Life = TRUE
-HSClasses <- HSSome
-DataClasses <- {'DataSome' if ver==3 else 'V2All'}
-INVARIANT NoViolation
-INVARIANT TypeOK
-INVARIANT KeyImpliesIssued
-CHECK_DEADLOCK FALSE
-"""
-import re
+"""Development helper: run the LanSession model check.  usage: ls_run.py ver retries calls [hs data conn fly keys hsretries]"""
+import sys, re
+from harness.common import Ctx
+from harness import session
+a = sys.argv[1:]
+ver, retries, calls = int(a[0]), int(a[1]), int(a[2])
+kw = {}
+if len(a) > 3: kw["hs"] = a[3]
+if len(a) > 4: kw["data"] = a[4]
+if len(a) > 5: kw["conn"] = int(a[5])
+if len(a) > 6: kw["fly"] = int(a[6])
+if len(a) > 7: kw["keys"] = int(a[7])
+if len(a) > 8: kw["hsretries"] = int(a[8])
+ctx = Ctx("C07", "quick", 0)
 try:
-    r=run_tlc("MC_LanSession",cfg,name="mc_ls",workers=16,timeout=1800,heap="8g")
-    print(r.ok,r.violated,r.generated,r.distinct,r.depth,round(r.wall_s,1))
-    if r.violated:
-        # compact trace: evs and bad per state
-        for st in r.error_states:
-            ev=re.search(r"/\\ evs = (.*?)\n/\\ ",st,re.S)
-            bad=re.search(r"bad \|-> (\{.*?\})",st,re.S)
-            pcv=re.search(r'/\\ pc = "(\w+)"',st)
-            print("STATE", pcv.group(1) if pcv else "", "bad=",bad.group(1) if bad else "", "\n    evs=", re.sub(r"\s+"," ",ev.group(1)) if ev else "")
+    r = session.mc(ctx, ver, retries, name="mc_ls", calls=calls, coverage=True, **kw)
+    print(r.ok, r.generated, r.distinct, r.depth, round(r.wall_s, 1))
+    print(ctx.notes)
 except Exception as e:
-    print(str(e)[-3000:])
+    out = open("/verif/.work/mc_ls/tlc.out").read()
+    for st in re.findall(r"^State \d+:.*?(?=^State \d+:|^\d+ states generated|\Z)", out, re.S | re.M):
+        ev = re.search(r"/\\ evs = (.*?)\n/\\ ", st, re.S)
+        bad = re.search(r"bad \|-> (\{.*?\})", st, re.S)
+        pcv = re.search(r'/\\ pc = "(\w+)"', st)
+        print("STATE", pcv.group(1) if pcv else "", "bad=", bad.group(1) if bad else "", "\n    evs=", re.sub(r"\s+", " ", ev.group(1)) if ev else "")
+    print(str(e)[-1500:])
